@@ -62,6 +62,16 @@ LEVEL = "model_checking"
 LEVELS = {"C05": "fault_enumeration", "C17": "fault_enumeration", "C19": "exploration", "C20": "exploration", "C14": "exploration"}
 
 
+def scratch_tag():
+    """Suffix that keeps the build products and outputs of a scratch run (mutant, seeded patch,
+    experiment) apart from the registered checks' and from each other (VERIF_TAG=<name>)."""
+    if os.environ.get("VERIF_TAG"):
+        return "." + re.sub(r"[^A-Za-z0-9_]", "", os.environ["VERIF_TAG"])
+    if os.environ.get("VERIF_MUTANT") or os.environ.get("VERIF_PATCH"):
+        return ".mutant"
+    return ""
+
+
 def log(*a):
     print(*a, file=sys.stderr, flush=True)
 
@@ -131,7 +141,7 @@ def build(engine, overlay=None, out=None, race=False):
 
 
 def run_shards(binary, prop, tier, nshards, deadline, seed, replay=None, extra_env=None, test="TestCheck", outdir_suffix=""):
-    outdir = os.path.join(BUILD, "out", prop + outdir_suffix)
+    outdir = os.path.join(BUILD, "out", prop + outdir_suffix + scratch_tag())
     shutil.rmtree(outdir, ignore_errors=True)
     os.makedirs(outdir)
     procs = []
@@ -227,8 +237,8 @@ def finish(prop, tier, seed, m, errors, t0, level=LEVEL, assumptions=None, repla
             matched[kind] = cnt
         else:
             new_viol[kind] = cnt
-    mutant = bool(os.environ.get("VERIF_MUTANT") or os.environ.get("VERIF_SCRATCH_EVIDENCE"))
-    rdir = os.path.join(BUILD, "mutant_replays", prop) if mutant else os.path.join(VERIF, "replays", prop)
+    mutant = bool(os.environ.get("VERIF_MUTANT") or os.environ.get("VERIF_PATCH") or os.environ.get("VERIF_SCRATCH_EVIDENCE"))
+    rdir = os.path.join(BUILD, "mutant_replays" + scratch_tag().replace(".mutant", ""), prop) if mutant else os.path.join(VERIF, "replays", prop)
     lines = []
     if mutant:
         shutil.rmtree(rdir, ignore_errors=True)
@@ -268,7 +278,7 @@ def finish(prop, tier, seed, m, errors, t0, level=LEVEL, assumptions=None, repla
     if harness_broken:
         ev["coverage"]["harness_errors"] = (errors + m["harness_errors"])[:10]
     if not replaying:
-        edir = os.path.join(BUILD, "mutant_evidence") if mutant else os.path.join(VERIF, "evidence")
+        edir = os.path.join(BUILD, "mutant_evidence" + scratch_tag().replace(".mutant", "")) if mutant else os.path.join(VERIF, "evidence")
         os.makedirs(edir, exist_ok=True)
         json.dump(ev, open(os.path.join(edir, prop + ".json"), "w"), indent=1, sort_keys=True)
     for l in lines:
@@ -298,10 +308,35 @@ def mutant_overlay(mutant_path):
     repl = {}
     os.makedirs(BUILD, exist_ok=True)
     for i, (f, text) in enumerate(texts.items()):
-        gen = os.path.join(BUILD, "mutant_%d_%s" % (i, os.path.basename(f)))
+        gen = os.path.join(BUILD, "mutant%s_%d_%s" % (scratch_tag(), i, os.path.basename(f)))
         open(gen, "w").write(text)
         repl[f] = gen
-    return make_overlay(extra_replace=repl, tag=".mutant")
+    return make_overlay(extra_replace=repl, tag=scratch_tag())
+
+
+def patch_overlay(patch_path):
+    """A seeded change (git diff) applied to copies of the files it touches; the copies replace
+    the working-tree files through the overlay, /repo itself is not written."""
+    tag = scratch_tag()
+    d = os.path.join(BUILD, "patched" + tag)
+    shutil.rmtree(d, ignore_errors=True)
+    os.makedirs(d)
+    files = re.findall(r"^diff --git a/(\S+) b/(\S+)$", open(patch_path).read(), re.M)
+    for a, b in files:
+        src = os.path.join(REPO, a)
+        if os.path.exists(src):
+            os.makedirs(os.path.dirname(os.path.join(d, a)), exist_ok=True)
+            shutil.copy(src, os.path.join(d, a))
+    p = subprocess.run(["patch", "-p1", "-s", "-d", d, "-i", os.path.abspath(patch_path)], stdout=subprocess.PIPE, stderr=subprocess.STDOUT, text=True)
+    if p.returncode != 0:
+        raise SystemExit("patch %s does not apply: %s" % (patch_path, p.stdout))
+    repl = {}
+    for a, b in files:
+        if os.path.exists(os.path.join(d, b)):
+            repl[b] = os.path.join(d, b)
+        else:
+            raise SystemExit("patch %s deletes or renames %s: apply it to /repo instead (tools/seedcheck.sh --inplace)" % (patch_path, a))
+    return make_overlay(extra_replace=repl, tag=tag)
 
 
 def race_pass(prop, tier, overlay=None, tag=""):
@@ -365,10 +400,15 @@ def check(prop, tier, replay=None):
     deadline = dq if tier == "quick" else dt
     if os.environ.get("VERIF_DEADLINE_S"):
         deadline = float(os.environ["VERIF_DEADLINE_S"])
-    overlay, tag = None, ""
+    overlay, tag = None, scratch_tag()
     if os.environ.get("VERIF_MUTANT"):
-        overlay, tag = mutant_overlay(os.environ["VERIF_MUTANT"]), ".mutant"
-        binary = build(engine, overlay=overlay, out=os.path.join(BUILD, engine + ".mutant.test"))
+        overlay = mutant_overlay(os.environ["VERIF_MUTANT"])
+    elif os.environ.get("VERIF_PATCH"):
+        overlay = patch_overlay(os.environ["VERIF_PATCH"])
+    elif tag:
+        overlay = make_overlay(tag=tag)
+    if tag:
+        binary = build(engine, overlay=overlay, out=os.path.join(BUILD, engine + tag + ".test"))
     else:
         binary = build(engine)
     extra = None
